@@ -2,7 +2,7 @@
 import scopedom
 
 OBS = 'ObsC04'
-LABELS = {'quick': 'abort nested graceful until'.split(), 'thorough': 'abort nested graceful until'.split()}
+LABELS = {'quick': 'abort nested graceful until supervisor'.split(), 'thorough': 'abort nested graceful until supervisor'.split()}
 
 
 def run(check):
